@@ -546,7 +546,9 @@ def gen_link(rng):
         out = []
         for _ in range(k):
             dim = d if rng.random() < 0.65 else rng.randint(1, 4)
-            out.append([dim, rng.random() < 0.85])
+            r = rng.random()
+            # initialised by a first run / never run / never run but created with declared input_dim and output_dim
+            out.append([dim, True if r < 0.6 else (False if r < 0.75 else "declared")])
         return out
     how = ">>"
     if lf != "list" and rf != "list" and rng.random() < 0.3:
@@ -563,8 +565,11 @@ def _build_operand(side, spec):
     from reservoirpy.nodes import Identity
     bn = []
     for dim, init in spec["nodes"]:
-        n = Identity(name=uname("lk"))
-        if init:
+        if init == "declared":
+            n = Identity(name=uname("lk"), input_dim=dim, output_dim=dim)
+        else:
+            n = Identity(name=uname("lk"))
+        if init is True:
             n.run(np.ones((1, dim)))
         bn.append(n)
     f = spec["form"]
@@ -601,6 +606,8 @@ def run_link(lc):
     after = [(n.is_initialized, n.input_dim, n.output_dim) for n in ls + rs]
 
     def fr(dim, init):
+        if init == "declared":       # dimensions known, is_initialized False: the link-time check does not apply
+            return "(fresh KSame (Some %s) (Some %s))" % (nat(dim), nat(dim))
         if not init:
             return "(fresh KSame None None)"
         return "(mkNode KSame true (Some [%s]) (Some %s) (Some [%s; %s]) 1 1 false None false)" % (nat(dim), nat(dim), nat(1), nat(dim))
@@ -613,8 +620,17 @@ def judge_link(lc):
     """Property side: two initialised nodes whose dimensions disagree must not be connected, however they are wrapped;
     agreeing (or not yet known) dimensions must be accepted; linking never changes a dimension."""
     _, o = run_link(lc)
-    mismatch = any(i1 and i2 and d1 != d2 for d1, i1 in lc["left"]["nodes"] for d2, i2 in lc["right"]["nodes"])
+    mismatch = any(i1 is True and i2 is True and d1 != d2 for d1, i1 in lc["left"]["nodes"] for d2, i2 in lc["right"]["nodes"])
     form = "%s-%s" % (lc["left"]["form"], lc["right"]["form"])
+    # nodes created with declared dimensions but never run: the construction is legal when every receiver whose dimension is
+    # known gets exactly that many features from the senders (all of them feed it, side by side); an illegal one may be refused
+    # early or late, nothing is demanded
+    if not mismatch and any(i == "declared" for _, i in lc["left"]["nodes"] + lc["right"]["nodes"]):
+        sdims = [d for d, i in lc["left"]["nodes"]]
+        known = all(i for _, i in lc["left"]["nodes"])
+        legal = all((not i2) or (not known) or sum(sdims) == d2 for d2, i2 in lc["right"]["nodes"])
+        if not legal:
+            return None
     if mismatch and not o["raised"]:
         return {"key": "accepted:link-dimension-mismatch:%s" % ("node-node" if form == "node-node" else "wrapped-operand"),
                 "what": "linking (%s, operands " + form + ") connects an initialised sender and an initialised receiver whose dimensions differ without raising" % lc["how"],
